@@ -2089,6 +2089,79 @@ fn orderly_shutdown(st: &mut Option<Stakker>) {
     do_drop_stakker(st);
 }
 
+/// The DropStakker operation: an abrupt drop(stakker) where the generator's rules allow it,
+/// otherwise an orderly shutdown
+fn drop_stakker_op(st: &mut Option<Stakker>, bag: &mut Vec<Handle>) {
+    if st.is_some() {
+        // feature-matrix mode: an abrupt drop only when nothing can defer afterwards
+        let can_defer_later = |b: &Vec<Handle>| {
+            b.iter().any(|x| match x {
+                Handle::Own(_) | Handle::Anon(_) | Handle::DropDefer(_) => true,
+                Handle::Ret(r) => r.aid.is_some(),
+                _ => false,
+            })
+        };
+        // In matrix mode the harness first lets go of everything it holds (locals,
+        // global registers, its per-actor references): the terminations and drop-handler
+        // closures this queues are then pending when the Stakker is dropped, so actors
+        // are freed un-terminated *inside* Stakker::drop - where every feature set must
+        // produce the same events - and nothing is left that could defer afterwards.
+        if hx(|h| h.matrix) {
+            let b = std::mem::take(bag);
+            drop(b);
+            for _ in 0..1000 {
+                let g = hx(|h| std::mem::take(&mut h.gbag));
+                if g.is_empty() {
+                    break;
+                }
+                drop(g);
+            }
+        }
+        let matrix_block = hx(|h| {
+            h.matrix
+                && (!h.mon.lazy.is_empty()
+                    || !h.mon.idle.is_empty()
+                    || !h.mon.timers.is_empty()
+                    || can_defer_later(&h.gbag))
+        }) || (hx(|h| h.matrix) && can_defer_later(bag));
+        if matrix_block {
+            hx(|h| h.rep.class("abrupt-drop-skipped:matrix-mode"));
+            let b = std::mem::take(bag);
+            drop(b);
+            orderly_shutdown(st);
+            return;
+        }
+        let sig = hx(|h| if h.strict || h.dead { None } else { h.mon.f2_signature() });
+        let weak = hx(|h| h.weak_backref);
+        if sig.is_none() && weak {
+            hx(|h| h.rep.class("abrupt-drop-skipped:user-weak-cycle"));
+            let b = std::mem::take(bag);
+            drop(b);
+            orderly_shutdown(st);
+            return;
+        }
+        match sig {
+            Some(sig) => {
+                hx(|h| {
+                    h.rep.excluded.push(sig);
+                    h.tr(|| format!("(abrupt drop(stakker) replaced by an orderly shutdown: known finding {})", sig));
+                });
+                let b = std::mem::take(bag);
+                drop(b);
+                orderly_shutdown(st);
+            }
+            None => {
+                hx(|h| h.rep.class("abrupt-stakker-drop"));
+                if hx(|h| h.matrix) {
+                    let refs = hx(|h| std::mem::take(&mut h.arefs));
+                    drop(refs);
+                }
+                do_drop_stakker(st);
+            }
+        }
+    }
+}
+
 fn run_top(prog: &Prog) {
     let mut st = Some(Stakker::new(inst_hm(0)));
     super::logchk::install(st.as_mut().unwrap(), hx(|h| h.seed));
@@ -2108,57 +2181,7 @@ fn run_top(prog: &Prog) {
                     do_run(s, target, *idle);
                 }
             }
-            Op::DropStakker => {
-                if st.is_some() {
-                    // feature-matrix mode: an abrupt drop only when nothing can defer afterwards
-                    let can_defer_later = |b: &Vec<Handle>| {
-                        b.iter().any(|x| match x {
-                            Handle::Own(_) | Handle::Anon(_) | Handle::DropDefer(_) => true,
-                            Handle::Ret(r) => r.aid.is_some(),
-                            _ => false,
-                        })
-                    };
-                    let matrix_block = hx(|h| {
-                        h.matrix
-                            && (!h.mon.lazy.is_empty()
-                                || !h.mon.idle.is_empty()
-                                || !h.mon.timers.is_empty()
-                                || h.mon.actors.iter().any(|a| a.st != AState::Zombie)
-                                || can_defer_later(&h.gbag))
-                    }) || (hx(|h| h.matrix) && can_defer_later(&bag));
-                    if matrix_block {
-                        hx(|h| h.rep.class("abrupt-drop-skipped:matrix-mode"));
-                        let b = std::mem::take(&mut bag);
-                        drop(b);
-                        orderly_shutdown(&mut st);
-                        continue;
-                    }
-                    let sig = hx(|h| if h.strict || h.dead { None } else { h.mon.f2_signature() });
-                    let weak = hx(|h| h.weak_backref);
-                    if sig.is_none() && weak {
-                        hx(|h| h.rep.class("abrupt-drop-skipped:user-weak-cycle"));
-                        let b = std::mem::take(&mut bag);
-                        drop(b);
-                        orderly_shutdown(&mut st);
-                        continue;
-                    }
-                    match sig {
-                        Some(sig) => {
-                            hx(|h| {
-                                h.rep.excluded.push(sig);
-                                h.tr(|| format!("(abrupt drop(stakker) replaced by an orderly shutdown: known finding {})", sig));
-                            });
-                            let b = std::mem::take(&mut bag);
-                            drop(b);
-                            orderly_shutdown(&mut st);
-                        }
-                        None => {
-                            hx(|h| h.rep.class("abrupt-stakker-drop"));
-                            do_drop_stakker(&mut st);
-                        }
-                    }
-                }
-            }
+            Op::DropStakker => drop_stakker_op(&mut st, &mut bag),
             op => match st.as_mut() {
                 Some(s) => exec_op(&mut Env::Top(s), op, &mut bag, &mut fr),
                 None => exec_op(&mut Env::NoCore, op, &mut bag, &mut fr),
@@ -2166,6 +2189,12 @@ fn run_top(prog: &Prog) {
         }
     }
     hx(|h| h.rep.ops = nops);
+    // feature-matrix mode: half of the programs that still have their Stakker end with the
+    // DropStakker operation (abrupt where allowed) rather than an orderly shutdown, so that
+    // whatever is live or queued then is released inside Stakker::drop in every feature set
+    if st.is_some() && hx(|h| h.matrix && !h.dead && (h.seed >> 33) & 1 == 1) {
+        drop_stakker_op(&mut st, &mut bag);
+    }
     drop(bag);
     if st.is_some() {
         orderly_shutdown(&mut st);
@@ -2257,6 +2286,9 @@ fn summarize(h: &mut Hx) {
     }
     if s.stakker_dropped_pending > 0 {
         rep.class("stakker-dropped-with-pending");
+    }
+    if m.stat_freed_in_stakker_drop > 0 {
+        rep.class("actor-value-freed-unterminated-inside-stakker-drop");
     }
     if m.stat_max_drop_gen >= 10 {
         rep.class("drop-generations>=10");
